@@ -174,13 +174,31 @@ class Executor:
         if op in LOAD_OPS:
             return self.do_load(st, ev)
         fn = getattr(self, "op_" + op)
+        fault = st.get("fault") or {}
+        intr = None
+        if fault.get("kind") == "intr":
+            intr = Interrupt(self.trace_files, at=fault.get("at"), exc=fault.get("exc", "MemoryError"))
+        elif fault.get("kind") == "count":
+            intr = Interrupt(self.trace_files, at=None)
         try:
-            res = fn(st)
+            if intr is not None:
+                with intr:
+                    res = fn(st)
+            else:
+                res = fn(st)
             ev["res"] = res
             ev["ok"] = True
-        except Exception as e:
+        except BaseException as e:      # injected KeyboardInterrupt included
+            if isinstance(e, SystemExit):
+                raise
             ev["res"] = D.render_exception(e, self.root, self.messages)
             ev["ok"] = False
+        finally:
+            sys.settrace(None)
+        if intr is not None:
+            ev["lines"] = intr.count
+            ev["fired"] = bool(intr.fired)
+            ev["where"] = intr.where
         return ev
 
     def do_load(self, st, ev):
